@@ -38,7 +38,7 @@ def run(rep, work, tier, seed):
         leg_mutant(rep, work, SPEC, "mutant_no_rollback", cfg_text(dict(small, Bug="no_rollback"), invariants=INVS),
                    ["ExitOnce"])
     for name, conf in confs:
-        leg_r(rep, work, SPEC, f"conf_{name}_{tier}", cfg_text(conf, invariants=INVS), ScopeLifeDriver)
+        leg_r(rep, work, SPEC, f"conf_{name}_{tier}", cfg_text(conf, invariants=INVS), ScopeLifeDriver, world=True)
     rep.assumptions += [
         "disposable doubles: disposable i yields the state B = i (the body must see the one declared last, whatever the "
         "order in which they finished entering), the middle one of three yields nothing (None); return shapes alternate "
